@@ -45,6 +45,7 @@ def run(ctx):
     _orderings(ctx)
     _registry(ctx)
     _release_all(ctx)
+    _handle_released_on_timeout(ctx)
     _cas_loops(ctx)
 
 
@@ -412,3 +413,30 @@ def _release_all(ctx):
         if not okx:
             bad.append((x, y))
     ctx.check(not bad, "C11.D6", "drains-until-empty", site(b, bad[0][0]) if bad else site(b), ok="the drain loop ends only on a failed receive (queue empty)", bad="the drain loop can end although the queue still has commands (exit edge bb%s->bb%s is not on the receive-failed branch): they stay parked for ever" % (bad[0] if bad else ("", "")))
+
+
+def _handle_released_on_timeout(ctx):
+    """`none stays queued forever`: run_migration bounds the blocking phase with max_blocking_time.  When the timeout wins
+    the select, the future that owns the BlockingHandle must be dropped *before* the scan is awaited - dropping the
+    handle is what lifts the barrier.  If that future lives on (a pinned / named future that is only dropped at the end of
+    the function), the backend stays blocked for the whole scan."""
+    F = ctx.F
+    bs = [x for x in F.all_bodies(bins=False) if x.path.endswith("RedisScanMigratingTask::run_migration::{closure#0}") and not x.is_mock()]
+    if not bs:
+        ctx.lost("C11.D6", "run_migration", "async body not found")
+        return
+    b = bs[0]
+    ctx.analysed(b)
+    dom = cfg.dominators(b)
+    inner = [x for x in F.all_bodies(bins=False) if x.path == b.path + "::{closure#0}"]
+    owns = bool(inner) and any((callee_decl(t) or callee_of(t) or "").endswith("stop") or "BlockingHandle" in " ".join(t.get("atys") or []) for bb, t in inner[0].calls())
+    V = [l for l in range(len(b.locals)) if "{async block@" in b.locals[l]["ty"] and not b.locals[l]["ty"].lstrip().startswith(("&", "std::pin::Pin<&", "std::task::Poll"))]
+    into = [bb for bb, t in b.calls() if (callee_decl(t) or "").endswith("IntoFuture::into_future")]
+    if not (ctx.floor("C11.D6", "future owning the blocking handle in run_migration", len(V), 1) and ctx.floor("C11.D6", "awaits in run_migration", len(into), 2)):
+        return
+    last = max(into, key=lambda x: len(dom.get(x, ())))
+    drops = [(bb, t["place"]["l"]) for bb, t in b.iter_terms() if t["k"] == "drop" and t["place"]["l"] in V and not t["place"]["p"]]
+    early = [bb for bb, l in drops if bb in dom.get(last, ())]
+    late = [bb for bb, l in drops if cfg.reaches(b, last, bb) and bb not in dom.get(last, ())]
+    ctx.check(bool(early) and owns, "C11.D6", "blocking-future-dropped-before-scan", site(b, (late or [last])[0]), ok="the future that holds the BlockingHandle is dropped before scan_migrate is awaited",
+              bad="the future that holds the BlockingHandle is still alive while the scan is awaited (its only drops come after the last await): when max_blocking_time expires the barrier is not lifted and the parked commands stay queued for the whole scan")
